@@ -13,7 +13,10 @@ by z3, native execution per path; strings are concrete per path because pyparsin
   response, TCP and DNS flows), so agreement of `bool(flt(flow))` with the directly evaluated tree on every
   flow is agreement of the whole truth table.  Oracle: `!` > `&` > `|`; juxtaposition is conjunction whose
   precedence the property does not state, so it is always rendered with explicit parentheses around it when it
-  is an operand, and around `|` operands inside it (weaker reading).
+  is an operand, and around `|` operands inside it (weaker reading).  pyparsing's `infix_notation` needs
+  0.1-1 s for an expression with nested groups, which is what sizes the bounds: quick = all trees with <= 2
+  operators x per-node renderings + all depth-2 trees (<= 3 operators) with minimal parentheses; thorough =
+  depth 2 with every per-node rendering, and depth 3 (<= 4 operators) with packrat memoisation switched on.
 * atoms: every documented operator (~q ~s ~m ~u ~c ~b ~bq ~bs ~h ~hq ~hs ~d ~t ~tq ~ts ~a ~e ~marked ~marker
   ~comment ~meta ~src ~dst ~replay* ~http ~tcp ~udp ~dns ~websocket ~all, naked regex) with arguments whose
   truth value on 4 fixed flows (HTTP req-only, HTTP+response, TCP, DNS) is known from the documentation, in
@@ -400,15 +403,20 @@ def obligations(tier):
              bounds=("every cased code point U+0000..U+05FF" if quick else "every cased code point U+0000..U+1FFFF") + " as regex of ~comment / ~b (and ~u for ASCII), bare and double-quoted, against text holding its swapcase()",
              encoded=ENCODED, must_reach=["end", "case-insensitive-match"], parallel_depth=2),
     ]
+    leafdoc = "leaves in pre-order are ~marked, ~comment \"K1\", ~comment 'k2', ~dst dst3 (unary / double- / single-quoted / bare forms), rotated by the leaf-form selector"
     if quick:
-        obs.append(Symx("expression-trees", lambda X: h_trees(X, 2, 3, 3, 1),
-                        bounds="every expression tree of depth <= 2 (<= 3 operators, <= 4 leaves) over {atom, !, &, |, juxtaposition}; per operator node rendering in "
-                               f"{RENDERINGS[:3]}; leaves in pre-order are ~marked, ~comment \"K1\", ~comment 'k2', ~dst dst3 (unary / double- / single-quoted / bare forms); verdict on all 2^leaves truth assignments (flows of 4 types)",
+        obs.append(Symx("expression-trees", lambda X: h_trees(X, 2, 2, 3, 2),
+                        bounds="every expression tree of depth <= 2 with <= 2 operators over {atom, !, &, |, juxtaposition}; per operator node rendering in "
+                               f"{RENDERINGS[:3]}; 2 leaf-form rotations; {leafdoc}; verdict on all 2^leaves truth assignments (flows of 4 types)",
+                        encoded=ENCODED, must_reach=["end", "parsed", "operator"], parallel_depth=3))
+        obs.append(Symx("expression-trees-3ops", lambda X: h_trees(X, 2, 3, 1, 2),
+                        bounds="every expression tree of depth <= 2 (<= 3 operators, <= 4 leaves) over {atom, !, &, |, juxtaposition}, minimal parentheses; "
+                               f"2 leaf-form rotations; {leafdoc}; verdict on all 2^leaves truth assignments",
                         encoded=ENCODED, must_reach=["end", "parsed", "operator"], parallel_depth=3))
     else:
-        obs.append(Symx("expression-trees", lambda X: h_trees(X, 2, 3, 4, 6),
-                        bounds=f"every expression tree of depth <= 2 over {{atom, !, &, |, juxtaposition}}; per operator node rendering in {RENDERINGS}; 6 leaf-form rotations; "
-                               "verdict on all 2^leaves truth assignments",
+        obs.append(Symx("expression-trees", lambda X: h_trees(X, 2, 3, 4, 2),
+                        bounds=f"every expression tree of depth <= 2 (<= 3 operators) over {{atom, !, &, |, juxtaposition}}; per operator node rendering in {RENDERINGS}; 2 leaf-form rotations; "
+                               f"{leafdoc}; verdict on all 2^leaves truth assignments",
                         encoded=ENCODED, must_reach=["end", "parsed", "operator"], parallel_depth=3))
         obs.append(Symx("expression-trees-depth3-packrat", lambda X: h_trees(X, 3, 4, 1, 1, packrat=True),
                         bounds="every expression tree of depth <= 3 with <= 4 operators over {atom, !, &, |, juxtaposition}, minimal parentheses, one leaf-form rotation; "
